@@ -363,6 +363,9 @@ func check(id, tier string) int {
 					return
 				}
 				kind, excerpt := classifyFatal(string(logb))
+				if j.part.KnownFindingOnly {
+					kind = j.part.Mode + ":" + kind
+				}
 				c := -1
 				if b, e := os.ReadFile(outFile + ".progress"); e == nil {
 					c, _ = strconv.Atoi(strings.TrimSpace(string(b)))
@@ -455,6 +458,19 @@ func check(id, tier string) int {
 		"inconclusive":               inconclusive,
 		"hooks":                      map[bool]string{true: "enabled", false: "unavailable"}[hooks],
 		"known_findings_hit":         knownHit,
+	}
+	if p.EscapeReport != "" {
+		cmd := exec.Command("go", "build", "-tags", "verif", "-gcflags=-m", "-o", os.DevNull, "./h")
+		cmd.Dir = filepath.Join(root, "harness")
+		cmd.Env = goEnv()
+		out, _ := cmd.CombinedOutput()
+		lines := []string{}
+		for _, l := range strings.Split(string(out), "\n") {
+			if strings.Contains(l, p.EscapeReport) && (strings.Contains(l, "escape") || strings.Contains(l, "moved to heap")) && !strings.Contains(l, "leaking") {
+				lines = append(lines, strings.TrimSpace(l))
+			}
+		}
+		cov["escape_analysis_of_call_site_shapes"] = lines
 	}
 	ev := map[string]any{
 		"property_id": id,
